@@ -138,6 +138,9 @@ pub struct World {
     chain_id: ChainId,
     db: MemDb,
     executor: Executor<MemDb, ScriptedRelayer>,
+    /// the other execution strategy (C07); `None` in the native-only harness
+    other: Option<Executor<MemDb, ScriptedRelayer>>,
+    strat: (String, String),
     relayer: ScriptedRelayer,
     contract_code: Vec<u8>,
     txs: BTreeMap<String, (Value, Transaction)>,
@@ -230,7 +233,15 @@ fn contract_id_of(code: &[u8], name: &str) -> ContractId {
 }
 
 impl World {
-    pub fn new(mut cfg: Value) -> World {
+    pub fn new(cfg: Value) -> World {
+        World::with_primary(cfg, "native")
+    }
+
+    /// `primary` = the strategy whose results are logged as the block's events and committed
+    /// ("native" | "wasm"); with the `wasm` feature the other strategy runs next to it on the same
+    /// parent state and inputs and its digests are logged in the `other` fields.
+    pub fn with_primary(mut cfg: Value, primary: &str) -> World {
+        let _ = primary;
         let mut params = ConsensusParameters::default();
         params.set_fee_params(FeeParameters::default().with_gas_price_factor(GAS_PRICE_FACTOR));
         let chain_id = params.chain_id();
@@ -241,6 +252,8 @@ impl World {
             chain_id,
             db: MemDb::default(),
             executor: Executor::native(MemDb::default(), ScriptedRelayer::default(), exec_config()),
+            other: None,
+            strat: ("native".to_string(), "none".to_string()),
             relayer: ScriptedRelayer::default(),
             contract_code: code.clone(),
             txs: BTreeMap::new(),
@@ -365,6 +378,17 @@ impl World {
             db.commit(tx.into_changes(), 0u32.into());
         }
         w.executor = Executor::native(db.clone(), w.relayer.clone(), exec_config());
+        #[cfg(feature = "wasm")]
+        {
+            let wasm = Executor::wasm(db.clone(), w.relayer.clone(), exec_config());
+            if primary == "wasm" {
+                w.other = Some(std::mem::replace(&mut w.executor, wasm));
+                w.strat = ("wasm".to_string(), "native".to_string());
+            } else {
+                w.other = Some(wasm);
+                w.strat = ("native".to_string(), "wasm".to_string());
+            }
+        }
         w.db = db;
         w.cfg = cfg;
         w
@@ -750,7 +774,7 @@ impl World {
         let batch_names: Vec<Vec<String>> =
             plan.batches.iter().map(|b| b.iter().filter(|n| self.txs.contains_key(*n)).cloned().collect()).collect();
         let calls = Arc::new(Mutex::new(vec![]));
-        let source = LoggingSource { batches: Mutex::new(batches), calls: calls.clone(), chain_id: self.chain_id };
+        let source = LoggingSource { batches: Mutex::new(batches.clone()), calls: calls.clone(), chain_id: self.chain_id };
         let components = Components {
             header_to_produce: header,
             transactions_source: source,
@@ -760,6 +784,28 @@ impl World {
         self.relayer.take_calls();
         let produced = guarded(|| self.executor.produce_without_commit_with_source_direct_resolve(components));
         let da_calls = self.relayer.take_calls();
+        // the other strategy: same parent state, same header, same source batches
+        let other_v = self.other.as_ref().map(|ex| {
+            let source = LoggingSource { batches: Mutex::new(batches), calls: Arc::new(Mutex::new(vec![])), chain_id: self.chain_id };
+            let components = Components {
+                header_to_produce: header,
+                transactions_source: source,
+                coinbase_recipient: self.contract_id(&plan.cb),
+                gas_price: plan.gp,
+            };
+            let r = guarded(|| ex.produce_without_commit_with_source_direct_resolve(components));
+            self.relayer.take_calls();
+            match r {
+                Ok(Ok(u)) => {
+                    let (res, ch) = u.into();
+                    let skipped: Vec<String> = res.skipped_transactions.iter().map(|(id, e)| format!("{}:{}", hex8(&id[..]), classify(e))).collect();
+                    json!({"strat": self.strat.1, "ok": true, "err": "", "bid": hex8(&res.block.id().as_slice()[..]),
+                           "dg": digests(&ch, &res.tx_status, &res.events), "skipped": skipped})
+                }
+                Ok(Err(e)) => json!({"strat": self.strat.1, "ok": false, "err": classify(&e), "bid": "", "dg": {"ch": "", "st": "", "ev": ""}, "skipped": []}),
+                Err(p) => json!({"strat": self.strat.1, "ok": false, "err": format!("panic:{p}"), "bid": "", "dg": {"ch": "", "st": "", "ev": ""}, "skipped": []}),
+            }
+        });
         let (result, changes) = match produced {
             Ok(Ok(u)) => u.into(),
             other => {
@@ -771,9 +817,14 @@ impl World {
                 for c in &da_calls {
                     t.event("ImportDa", json!({"h": c}));
                 }
-                t.event("ProduceEnd", json!({"p": {"ok": false, "err": err, "txs": [], "kinds": [], "statuses": [], "sizes": [],
+                let mut p = json!({"ok": false, "err": err, "txs": [], "kinds": [], "statuses": [], "sizes": [],
                     "events": [], "msgCount": 0, "inbox": "", "da": da, "h": h,
-                    "mint": {"id": "", "idx": -1, "gp": 0, "amt": 0, "cb": "none"}, "dg": {"ch": "", "st": "", "ev": ""}}}));
+                    "mint": {"id": "", "idx": -1, "gp": 0, "amt": 0, "cb": "none"}, "dg": {"ch": "", "st": "", "ev": ""},
+                    "strat": self.strat.0, "bid": "", "skippedIds": []});
+                if let Some(o) = other_v {
+                    p["other"] = o;
+                }
+                t.event("ProduceEnd", json!({"p": p}));
                 t.event("Abort", json!({}));
                 return;
             }
@@ -875,18 +926,33 @@ impl World {
         let sizes: Vec<u64> = btxs.iter().map(size_of).collect();
         let dg = digests(&changes, &tx_status, &events);
         let evs = self.events(&events);
-        t.event(
-            "ProduceEnd",
-            json!({"p": {"ok": true, "err": "", "txs": names, "kinds": kinds, "statuses": statuses, "sizes": sizes, "events": evs,
+        let skipped_ids: Vec<String> = skipped_transactions.iter().map(|(id, e)| format!("{}:{}", hex8(&id[..]), classify(e))).collect();
+        let mut p = json!({"ok": true, "err": "", "txs": names, "kinds": kinds, "statuses": statuses, "sizes": sizes, "events": evs,
                 "msgCount": block.header().message_receipt_count(), "inbox": hex8(&block.header().event_inbox_root()[..]),
-                "da": block.header().da_height().0, "h": **block.header().height(), "mint": mint_v, "dg": dg}}),
-        );
+                "da": block.header().da_height().0, "h": **block.header().height(), "mint": mint_v, "dg": dg,
+                "strat": self.strat.0, "bid": hex8(&block.id().as_slice()[..]), "skippedIds": skipped_ids});
+        if let Some(o) = other_v {
+            p["other"] = o;
+        }
+        t.event("ProduceEnd", json!({"p": p}));
         // validate twice
         for _ in 0..2 {
             self.relayer.take_calls();
             let v = guarded(|| self.executor.validate(&block));
             let vcalls = self.relayer.take_calls();
-            let ev = match v {
+            let other = self.other.as_ref().map(|ex| {
+                let r = guarded(|| ex.validate(&block));
+                self.relayer.take_calls();
+                match r {
+                    Ok(Ok(uv)) => {
+                        let (vr, vch) = uv.into();
+                        json!({"res": "Accept", "reason": "", "dg": digests(&vch, &vr.tx_status, &vr.events)})
+                    }
+                    Ok(Err(e)) => json!({"res": "Reject", "reason": classify(&e), "dg": {"ch": "", "st": "", "ev": ""}}),
+                    Err(p) => json!({"res": "Reject", "reason": format!("panic:{p}"), "dg": {"ch": "", "st": "", "ev": ""}}),
+                }
+            });
+            let mut ev = match v {
                 Ok(Ok(uv)) => {
                     let (vr, vch) = uv.into();
                     json!({"res": "Accept", "reason": "", "dg": digests(&vch, &vr.tx_status, &vr.events), "daCalls": vcalls})
@@ -894,6 +960,9 @@ impl World {
                 Ok(Err(e)) => json!({"res": "Reject", "reason": classify(&e), "dg": {"ch": "", "st": "", "ev": ""}, "daCalls": vcalls}),
                 Err(p) => json!({"res": "Reject", "reason": format!("panic:{p}"), "dg": {"ch": "", "st": "", "ev": ""}, "daCalls": vcalls}),
             };
+            if let Some(o) = other {
+                ev["other"] = o;
+            }
             t.event("Validate", json!({"v": ev}));
         }
         // tampered variants
@@ -915,7 +984,18 @@ impl World {
                     Ok(Err(e)) => ("Reject".to_string(), classify(&e)),
                     Err(p) => ("Reject".to_string(), format!("panic:{p}")),
                 };
-                t.event("Tamper", json!({"t": {"kind": kind, "res": res, "reason": reason}}));
+                let mut tv = json!({"kind": kind, "res": res, "reason": reason});
+                if let Some(ex) = self.other.as_ref() {
+                    let r = guarded(|| ex.validate(&tb));
+                    self.relayer.take_calls();
+                    let (res, reason) = match r {
+                        Ok(Ok(_)) => ("Accept".to_string(), String::new()),
+                        Ok(Err(e)) => ("Reject".to_string(), classify(&e)),
+                        Err(p) => ("Reject".to_string(), format!("panic:{p}")),
+                    };
+                    tv["other"] = json!({"res": res, "reason": reason});
+                }
+                t.event("Tamper", json!({"t": tv}));
             }
         }
         // commit like the importer: executor changes + the block itself in one database commit
